@@ -33,10 +33,13 @@ type Gen struct {
 	nextH   int64
 	clock   int64
 	pending []Call
+	used    map[string]bool // every name ever handed out (clean mode never renames onto one)
+	sized   map[string]bool // files that (probably) have content
 }
 
 func NewGen(seed int64, p Profile) *Gen {
-	return &Gen{R: rand.New(rand.NewSource(seed)), P: p, dirs: []string{"/"}, clock: 1_600_000_000_000_000_000}
+	return &Gen{R: rand.New(rand.NewSource(seed)), P: p, dirs: []string{"/"}, clock: 1_600_000_000_000_000_000,
+		used: map[string]bool{}, sized: map[string]bool{}}
 }
 
 func (g *Gen) comp() string {
@@ -61,7 +64,48 @@ func (g *Gen) newName() string {
 	if strings.Count(d, "/") > 3 {
 		d = "/"
 	}
-	return path.Join(d, g.comp())
+	n := path.Join(d, g.comp())
+	g.used[n] = true
+	return n
+}
+
+// freshName returns a name that was never handed out before (clean mode: rename targets).
+func (g *Gen) freshName() string {
+	for k := 0; k < 50; k++ {
+		d := g.pickDir()
+		if strings.Count(d, "/") > 3 {
+			d = "/"
+		}
+		n := path.Join(d, g.comp())
+		if k > 10 {
+			n += fmt.Sprint(g.R.Intn(1000))
+		}
+		if !g.used[n] {
+			g.used[n] = true
+			return n
+		}
+	}
+	n := fmt.Sprintf("/fresh%d", g.R.Intn(1<<30))
+	g.used[n] = true
+	return n
+}
+
+func (g *Gen) isShadowFile(p string) bool {
+	for _, d := range g.files {
+		if d == p {
+			return true
+		}
+	}
+	return false
+}
+
+func (g *Gen) isShadowDir(p string) bool {
+	for _, d := range g.dirs {
+		if d == p {
+			return true
+		}
+	}
+	return false
 }
 
 func (g *Gen) spell(p string) string {
@@ -113,16 +157,28 @@ func (g *Gen) Next() Call {
 	switch {
 	case r < 16:
 		p := g.newName()
+		if !g.P.Wild && g.isShadowFile(p) {
+			return Call{"stat", []string{enc(p)}}
+		}
 		g.dirs = append(g.dirs, p)
 		return Call{"mkdir", []string{enc(g.spell(p)), fmt.Sprint(g.perm())}}
 	case r < 38:
 		// create (or reopen for writing), write, close
 		var p string
+		reopen := false
 		if len(g.files) > 0 && g.R.Intn(3) == 0 {
 			p = g.files[g.R.Intn(len(g.files))]
+			reopen = true
 		} else {
 			p = g.newName()
-			g.files = append(g.files, p)
+			if !g.P.Wild && g.isShadowDir(p) {
+				return Call{"stat", []string{enc(p)}}
+			}
+			if !g.isShadowFile(p) {
+				g.files = append(g.files, p)
+			} else {
+				reopen = true
+			}
 		}
 		g.nextH++
 		id := fmt.Sprint(g.nextH)
@@ -138,9 +194,12 @@ func (g *Gen) Next() Call {
 			n = g.R.Intn(g.P.MaxContent + 1)
 		}
 		var open Call
-		if g.R.Intn(4) == 0 && !ro {
+		if reopen && !g.P.Wild && g.sized[p] {
+			// clean mode: rewrite an existing non-empty file in place (no O_TRUNC, see finding F08)
+			open = Call{"openfile", []string{id, enc(p), fmt.Sprint(os.O_RDWR | os.O_CREATE), fmt.Sprint(g.perm())}}
+		} else if g.R.Intn(4) == 0 && !ro {
 			flag := os.O_RDWR | os.O_CREATE
-			if g.R.Intn(2) == 0 {
+			if g.R.Intn(2) == 0 && (g.P.Wild || !g.sized[p]) {
 				flag |= os.O_TRUNC
 			}
 			if g.P.Wild && g.R.Intn(3) == 0 {
@@ -159,6 +218,9 @@ func (g *Gen) Next() Call {
 				writes = append(writes, Call{"hwrite", []string{id, fmt.Sprint(n), fmt.Sprint(g.R.Intn(1 << 20))}})
 			}
 		}
+		if n > 0 {
+			g.sized[p] = true
+		}
 		g.pending = append(writes, Call{"hclose", []string{id}})
 		if g.P.Wild && g.R.Intn(10) == 0 {
 			g.pending = append(append([]Call{}, writes...), Call{"hsync", []string{id}}, Call{"hclose", []string{id}})
@@ -170,6 +232,13 @@ func (g *Gen) Next() Call {
 		return Call{"remove", []string{enc(g.spell(p))}}
 	case r < 50:
 		p := g.pickExisting()
+		if !g.P.Wild {
+			all := append(append([]string{}, g.dirs[1:]...), g.files...)
+			if len(all) == 0 {
+				return Call{"stat", []string{enc("/")}}
+			}
+			p = all[g.R.Intn(len(all))]
+		}
 		g.removeShadow(p)
 		return Call{"removeall", []string{enc(g.spell(p))}}
 	case r < 60:
@@ -177,8 +246,13 @@ func (g *Gen) Next() Call {
 		var to string
 		if g.P.Wild && g.R.Intn(3) == 0 {
 			to = g.pickExisting()
-		} else {
+		} else if g.P.Wild {
 			to = g.newName()
+		} else {
+			to = g.freshName()
+			for k := 0; k < 20 && (strings.HasPrefix(to, from+"/") || to == from); k++ {
+				to = g.freshName()
+			}
 		}
 		isDir := false
 		for _, d := range g.dirs {
@@ -197,13 +271,20 @@ func (g *Gen) Next() Call {
 			g.dirs = append(g.dirs, to)
 		} else {
 			g.files = append(g.files, to)
+			if g.sized[from] {
+				g.sized[to] = true
+			}
 		}
 		_ = sub
 		return Call{"rename", []string{enc(from), enc(to)}}
 	case r < 65:
 		return Call{"chmod", []string{enc(g.spell(g.pickExisting())), fmt.Sprint(g.perm())}}
 	case r < 68:
-		return Call{"chown", []string{enc(g.pickExisting()), fmt.Sprint(g.R.Intn(3) * 500), fmt.Sprint(g.R.Intn(3) * 100)}}
+		p := g.pickExisting()
+		if !g.P.Wild && !g.isShadowDir(p) {
+			p = g.pickDir()
+		}
+		return Call{"chown", []string{enc(p), fmt.Sprint(g.R.Intn(3) * 500), fmt.Sprint(g.R.Intn(3) * 100)}}
 	case r < 72:
 		return Call{"chtimes", []string{enc(g.pickExisting()), fmt.Sprint(g.clock - 5_000_000_000), fmt.Sprint(g.clock - 7_000_000_321)}}
 	case r < 78:
